@@ -32,6 +32,12 @@ def run (line : String) : String :=
       if n = 0 then (if e = .eof then "empty" else "fail")
       else (match guessPeek 1048576 ⟨List.replicate n 0, e⟩ with | .ok => "ok" | .fatal => "fail")
     | _, _ => "bad-op"
+  | ["kseq", _, _, c, o] =>
+    -- zlib reports every stream shorter than the whole file as truncated (data given by the harness);
+    -- the reader's rule: any pending stream error is fatal, a clean end is ok
+    match kv "cut" c, kv "of" o with
+    | some c, some o => if c < o then "fail" else "ok"
+    | _, _ => "bad-op"
   | "cmd" :: _ => "exit-nonzero"
   | _ => "bad-op"
 
